@@ -954,6 +954,16 @@ Proof.
     + apply desc_upd; [assumption|reflexivity].
 Qed.
 
+Lemma step_open_refused : forall c m, R c m -> step_ok c m EOpenRefused.
+Proof.
+  intros c m HR. unfold step_ok. cbn [conn_step].
+  destruct (negb (cc_dead c) && (active_count (cc_streams c) <? cc_max_streams c) && (cc_next_id c <? 2147483647));
+    [|apply noop_ok; exact HR].
+  cbn [fst snd]. exists m. split; [reflexivity|]. dR HR. unfold R. cbn. repeat split; auto; try lia.
+  - apply odd_plus2; assumption.
+  - eapply desc_weaken; [exact Rdesc|lia].
+Qed.
+
 Theorem step_ok_all : forall c m e, R c m -> step_ok c m e.
 Proof.
   intros c m e HR. destruct e.
@@ -970,4 +980,5 @@ Proof.
   - apply step_app_read; assumption.
   - apply step_app_close; assumption.
   - apply step_peer_headers; assumption.
+  - apply step_open_refused; assumption.
 Qed.
